@@ -76,10 +76,22 @@ def case_st(draw):
         case["ncpu"] = draw(st.integers(3, 9))
         case["key_mode"] = draw(st.sampled_from(["uniform", "random", "cube"]))
         case["nboundary"] = 0
+    if case["ndim"] < 3 and draw(st.integers(0, 3)) > 0:
+        # 1-D / 2-D outputs with a Hilbert decomposition: the pre-selection only knows the 3-D curve and must not restrict
+        case["ordering"] = "hilbert"
+        case.pop("owner_by_key", None)
+        case["ncpu"] = max(case["ncpu"], 3)
+        case["levelmin"] = max(case["levelmin"], 2)
+        case["levelmax"] = max(case["levelmax"], case["levelmin"] + 1)
     preds = []
-    for _ in range(draw(st.integers(3, 6))):
+    for ip in range(draw(st.integers(3, 6))):
         p = {"pos": draw(rs.pos_preds(case["ndim"], case["levelmax"],
                                       around_leaf=draw(st.sampled_from(["leaf", "leaf", "leaf", "abs"]))))}
+        if case["ndim"] < 3 and ip == 0:
+            # one box per low-dimensional case that is narrow on every existing axis and selects the leaf it sits on
+            p["pos"] = dict(draw(rs.pos_preds(case["ndim"], case["levelmax"], around_leaf="leaf")), centred=True, edge=False,
+                            rel=draw(st.sampled_from([0.1, 0.3, 0.6, 0.9])), axes="xyz"[: case["ndim"]],
+                            shift=[draw(st.floats(-0.4, 0.4)) for _ in range(case["ndim"])])
         if p["pos"]["form"] == "leaf" and draw(st.integers(0, 9)) < 8:
             p["pos"]["axes"] = "xyz"[: case["ndim"]]
             p["pos"]["shift"] = (p["pos"]["shift"] + [0.1, -0.2, 0.3])[: case["ndim"]]
@@ -268,7 +280,7 @@ def subs(ctx):
     return [
         Sub("curve", curve, cases=_curve_cases(thorough), shard=False),
         Sub("hilbert_diff", hilbert_diff, strategy=hilbert_pt_st, quick=400, thorough=3000),
-        Sub("selective", selective, strategy=case_st(), quick=110, thorough=400,
+        Sub("selective", selective, strategy=case_st(), quick=140, thorough=400,
             required={"restricted_with_rows": 0.06, "box_le_leaf": 0.1, "touches_edge": 0.03, "ordering_planar": 0.1,
                       "value_predicate_alone": 0.05}),
         Sub("cpu_list", cpu_list, strategy=cpu_case_st(), quick=40, thorough=200, required={"cpu_list_with_select": 0.3}),
